@@ -259,6 +259,8 @@ def no_shared_state(ctx, R, f, what, allow_self=False):
                       "sampling rate / default / configuration not in the key - is reused" % (what, getattr(t, "short", "?"), decos), robust=True)
     from ..alpha import locals_of, params_of
     loc = locals_of(f.node) | params_of(f.node)
+    # functions defined inside f are its own objects (attributes set on them live as long as the call)
+    loc |= {x.name for x in ast.walk(f.node) if isinstance(x, (ast.FunctionDef, ast.AsyncFunctionDef, ast.ClassDef)) and x is not f.node}
     selfn = f.params[0] if (f.cls is not None and f.params and not f.is_staticmethod) else None
     for n in f.body_nodes():
         tg = []
